@@ -16,7 +16,7 @@ ASSUMPTIONS = [
     "recursive grammars: the epsilon part is judged against a certified enclosure computed in exact rational arithmetic at the dual carrier (Kleene from below, a verified m-step pre-fixed point from above, tightened to 2^-27 relative); grammars without a tight certified enclosure (divergent / near-critical) are discarded and counted",
     "Log semiring read through exp: the implementation receives log(w); the observed gradient is compared with w * dZ/dw / Z; cases with log Z = -inf at a start cell are discarded and counted (derivative undefined)",
     "float results are compared inside Coq with rtol 1e-6, atol 1e-9 (iterative methods stop at tol = 1e-10)",
-    "autograd's accumulation across components is torch runtime: modelled as reverse accumulation over the SCC DAG (backward_nonrec) and tied to the dual-number derivative per case (verdict 20) for non-recursive Real cases",
+    "autograd's accumulation across components is torch runtime: modelled as reverse accumulation over the SCC DAG (backward_nonrec with J, backward_nonrec_log with J_log) and tied to the dual-number derivative per case (verdict 20, exact rational equality) for all non-recursive cases; proved equal to it for Real (C03_nonrecursive_gradient)",
 ]
 METHODS = ["fixed-point", "newton", "linear"]
 RTOL, ATOL = Fraction(1, 10**6), Fraction(1, 10**9)
@@ -112,16 +112,17 @@ def obs_interval(x):
     f = Fraction(x); tol = ATOL + RTOL * abs(f)
     return (f - tol, f + tol)
 
-def run_impl(spec, sr, method, cot, plain=False, ids="explicit", rng=None, tol=1e-10, kmax=400):
-    """returns (status, warned, {terminal el: [float grad entries]}); status in ok | nograd | valueerror"""
+def run_impl(spec, sr, method, cot, plain=False, ids="explicit", rng=None, tol=1e-10, kmax=400, j_precompute=False, build_kwargs=None):
+    """returns (status, warned, {terminal el: [float grad entries]}, z); status in ok | nograd | valueerror"""
     import fggs, torch
-    b = gen.build_fgg(spec, sr.wconv, ids=ids, rng=rng, dtype=sr.torch_dtype())
+    b = gen.build_fgg(spec, sr.wconv, ids=ids, rng=rng, dtype=sr.torch_dtype(), **(build_kwargs or {}))
     for fac in b.factors.values():
         fac.weights.requires_grad_()
     with warnings.catch_warnings(record=True) as wl:
         warnings.simplefilter("always")
         try:
-            z = fggs.sum_product(b.fgg, method=method, semiring=sr.semiring(), tol=tol, kmax=kmax).to_dense()
+            opts = dict(j_precompute=True) if j_precompute else {}
+            z = fggs.sum_product(b.fgg, method=method, semiring=sr.semiring(), tol=tol, kmax=kmax, **opts).to_dense()
         except ValueError as e:
             if "not linearly recursive" in str(e): return "valueerror", False, {}, None
             raise
@@ -195,14 +196,6 @@ def run_bin(spec, method, cot, mode="G", tol=1e-10, kmax=400, scale=Fraction(1),
     os.unlink(path)
     if p.returncode != 0:
         if "not linearly recursive" in p.stderr: return "valueerror", None, None, p.stderr
-        if "unsupported operand type(s) for *: 'Tensor' and 'PatternedTensor'" in p.stderr and cot is not None:
-            return "out_weights_typeerror", None, None, p.stderr
-        if mode == "G" and "'NoneType' object has no attribute 'tolist'" in p.stderr and "print(f'grad[" in p.stderr:
-            return "G_absent_grad", None, None, p.stderr
-        if "element 0 of tensors does not require grad" in p.stderr and "f.backward()" in p.stderr:
-            return "G_absent_grad", None, None, p.stderr
-        if mode == "ge" and "new_full(): argument 'fill_value'" in p.stderr and 1 in [spec["nlabels"][nl] for nl in spec["elabels"][factor]["type"]]:
-            return "e_size1_axis", None, None, p.stderr
         raise RuntimeError("bin/sum_product.py failed: " + p.stderr[-500:])
     lines = p.stdout.splitlines()
     z = _parse_json_line(":" + lines[0])
@@ -248,15 +241,79 @@ def run_model_parallel(values, seed, coq_sample, jobs=6):
                 raise BuildError("extracted code and vm_compute disagree on grad-real case %d: %d vs %d" % (i, codes[i], c))
     return codes, len(pick)
 
+def grad_cases(spec, sr, method, ids="explicit", rng=None, j_precompute=False, build_kwargs=None, cot=None, tol=1e-10, kmax=400):
+    """The gradient check on one grammar, for reuse by other properties (C11 option matrix, C12 presentations).
+    Runs sum_product(...).to_dense() with a cotangent (default: plain .sum(); else a list of Fractions, row-major
+    over the start symbol's shape), backward, and returns a list of (check function, wire value, meta) -- empty if
+    method='linear' raised its ValueError or the iteration warned (not converged).  Judge with
+    run_ocaml(CF, [wire...]) / run_model: verdict 0 ok, 1 wrong gradient, 30 / 31 inconclusive (discard).
+    sr: SR("real"|"log", "float64", scale).  build_kwargs are passed to gen.build_fgg (rule_order, names, patterned)."""
+    plain = cot is None
+    if plain: cot = [Fraction(1)] * numel(start_shape(spec))
+    status, warned, grads, z = run_impl(spec, sr, method, cot, plain=plain, ids=ids, rng=rng, tol=tol, kmax=kmax,
+                                        j_precompute=j_precompute, build_kwargs=build_kwargs)
+    if status == "valueerror" or warned: return []
+    case = dict(spec=gen.spec_jsonable(spec), semiring=sr.name, scale=str(sr.scale), method=method, cotangent=[str(c) for c in cot],
+                plain=plain, via="api", j_precompute=j_precompute, status=status)
+    call = "sum_product(fgg, method=%r, semiring=%s%s).to_dense()%s.backward()" % (method, sr.name, ", j_precompute=True" if j_precompute else "", ".sum()" if plain else " * c).sum(")
+    return [(CF, wire_case(spec, sr, cot, grads), dict(case=case, call=call, grads=grads, z=z))]
+
+def jpre_ok_shape(spec):
+    """static pre-filter for the j_precompute stream: at most 2 edges per rule, no isolated node, no nullary edge
+    and no repeated attachment (J_precompute_products still fails on about a third of these: F9, C11; those runs
+    raise AssertionError / 'shape ... is invalid' and are skipped and counted)"""
+    for r in spec["rules"]:
+        if len(r["edges"]) > 2 or len(r["edges"]) == 0: return False
+        if any(len(att) == 0 or len(set(att)) < len(att) for _, att in r["edges"]): return False
+        used = {i for _, att in r["edges"] for i in att}
+        if len(used) < len(r["nodes"]): return False
+    return True
+
+def jpre_spec(rng, recursive):
+    """grammars for the j_precompute stream: three components S > X > Y (X, Y of arity 1 over a domain of size 2), rules with
+    one or two edges, every node attached, no nullary edge, no repeated attachment; terminals a(n,m), b(n), c(n), d(n).
+    labels: 0 S, 1 X, 2 Y, 3 a, 4 b, 5 c, 6 d"""
+    W = [Fraction(1, 4), Fraction(1, 2), Fraction(1), Fraction(1), Fraction(2)]
+    s_ar1 = rng.random() < 0.25
+    elabels = [dict(term=False, type=[0] if s_ar1 else []), dict(term=False, type=[0]), dict(term=False, type=[0]),
+               dict(term=True, type=[0, 0]), dict(term=True, type=[0]), dict(term=True, type=[0]), dict(term=True, type=[0])]
+    def unary_rules(lhs, lower, rec):
+        # rules of a nonterminal N(n) of arity 1 whose nonterminal edges are labelled [lower] (a later component) or, if rec, N itself
+        t = [dict(lhs=lhs, nodes=[0], edges=[(rng.choice([4, 5, 6]), [0])], ext=[0]),
+             dict(lhs=lhs, nodes=[0, 0], edges=[(3, [0, 1])], ext=[0]),
+             dict(lhs=lhs, nodes=[0, 0], edges=[(3, [1, 0]), (rng.choice([4, 5, 6]), [1])], ext=[0]),
+             dict(lhs=lhs, nodes=[0], edges=[(rng.choice([4, 5, 6]), [0]), (rng.choice([4, 5, 6]), [0])], ext=[0])]
+        if lower is not None:
+            t += [dict(lhs=lhs, nodes=[0, 0], edges=[(3, [0, 1]), (lower, [1])], ext=[0]),
+                  dict(lhs=lhs, nodes=[0], edges=[(lower, [0]), (rng.choice([4, 5, 6]), [0])], ext=[0]),
+                  dict(lhs=lhs, nodes=[0], edges=[(lower, [0])], ext=[0])]
+        out = rng.sample(t, rng.choice([1, 2, 2]))
+        if lower is not None and not any(el == lower for r in out for el, _ in r["edges"]):
+            out.append(dict(lhs=lhs, nodes=[0, 0], edges=[(3, [0, 1]), (lower, [1])], ext=[0]))
+        if rec:
+            out.append(rng.choice([dict(lhs=lhs, nodes=[0, 0], edges=[(3, [0, 1]), (lhs, [1])], ext=[0]),
+                                   dict(lhs=lhs, nodes=[0], edges=[(lhs, [0]), (rng.choice([4, 5, 6]), [0])], ext=[0])]))
+        return out
+    ext0 = [0] if s_ar1 else []
+    srules = [dict(lhs=0, nodes=[0], edges=[(1, [0]), (rng.choice([4, 5, 6]), [0])], ext=ext0)]
+    if rng.random() < 0.5: srules.append(dict(lhs=0, nodes=[0], edges=[(rng.choice([1, 2]), [0])], ext=ext0))
+    if rng.random() < 0.3: srules.append(dict(lhs=0, nodes=[0], edges=[(rng.choice([4, 5, 6]), [0])], ext=ext0))
+    rules = srules + unary_rules(1, 2, recursive and rng.random() < 0.7) + unary_rules(2, None, recursive and rng.random() < 0.5)
+    weights = {3: gen.nested([2, 2], lambda: rng.choice(W[:4])), 4: gen.nested([2], lambda: rng.choice(W)),
+               5: gen.nested([2], lambda: rng.choice(W)), 6: gen.nested([2], lambda: rng.choice(W))}
+    used = {el for r in rules for el, _ in r["edges"]}
+    weights = {el: w for el, w in weights.items()}      # unused factors are kept: their gradient must be absent / zero
+    return dict(nlabels=[2], elabels=elabels, start=0, rules=rules, weights=weights, features=["jpre_shape"],
+                recursive=any(el == r["lhs"] for r in rules for el, _ in r["edges"]))
+
+def lower_scc_factor(spec):
+    """>= 2 nonterminals with rules and some factor used in a rule of a non-start nonterminal"""
+    return any(r["lhs"] != spec["start"] and any(spec["elabels"][el]["term"] for el, _ in r["edges"]) for r in spec["rules"]) \
+        and any(r["lhs"] == spec["start"] and any(not spec["elabels"][el]["term"] for el, _ in r["edges"]) for r in spec["rules"])
+
 WHAT = {1: "a gradient entry differs from the true derivative of the sum-product (dual-number value of the Kleene iterates / certified enclosure of its limit)",
         4: "a gradient has the wrong number of entries", 20: "code-shaped backward model differs from the dual-number derivative (framework bug)"}
 ORACLE = "grad_model (dual-number Zk: C03_dual_is_derivative, C03_tree_derivative) / encl2 (C03_encl2_sound)"
-
-BIN_FINDINGS = {
-    "out_weights_typeerror": ("bin/sum_product.py -o <out_weights> with -g/-G/-e raises TypeError (Tensor * PatternedTensor)", "c03_bin_out_weights_typeerror"),
-    "G_absent_grad": ("bin/sum_product.py -G/-g raises AttributeError (or RuntimeError in backward) when some (or every) factor cannot influence the start symbol (weights.grad is None)", "c03_bin_G_absent_grad"),
-    "e_size1_axis": ("bin/sum_product.py -e raises TypeError (new_full fill_value must be Number, not Tensor) for a factor with a size-1 domain axis", "c03_bin_e_size1_axis"),
-}
 
 def forced_recursive_spec(rng, kind):
     """recursive shapes whose Jacobian block Jx is a genuinely asymmetric matrix, so that solving the
@@ -265,6 +322,20 @@ def forced_recursive_spec(rng, kind):
     the start symbol contracts X with a vector c (or has arity 1 itself)"""
     W = [Fraction(1, 4), Fraction(1, 2), Fraction(1), Fraction(1), Fraction(2)]
     rw = lambda shape: gen.nested(shape, lambda: rng.choice(W))
+    if kind == 3:
+        # S -> X(n) c(n);  X(n) -> U(n) b(n)  [dead: U is unproductive, same SCC, listed FIRST]  |  a(n) | X(n) d(n);  U(n) -> X(n) U(n)
+        ar = rng.choice([[], [0]])
+        att = list(range(len(ar)))
+        T = dict(term=True, type=ar)
+        elabels = [dict(term=False, type=[]), dict(term=False, type=ar), dict(term=False, type=ar), T, T, T, T]
+        rules = [dict(lhs=0, nodes=ar, edges=[(1, att), (3, att)], ext=[]),
+                 dict(lhs=1, nodes=ar, edges=[(2, att), (4, att)], ext=att),
+                 dict(lhs=1, nodes=ar, edges=[(5, att)], ext=att),
+                 dict(lhs=1, nodes=ar, edges=[(1, att), (6, att)], ext=att),
+                 dict(lhs=2, nodes=ar, edges=[(1, att), (2, att)], ext=att)]
+        sh = [2] * len(ar)
+        weights = {3: rw(sh), 4: rw(sh), 5: rw(sh), 6: gen.nested(sh, lambda: rng.choice(W[:4]))}
+        return dict(nlabels=[2], elabels=elabels, start=0, rules=rules, weights=weights, features=["forced_dead_rule_first"], recursive=True)
     if kind == 1:
         elabels = [dict(term=False, type=[]), dict(term=False, type=[]), dict(term=False, type=[])] + [dict(term=True, type=[]) for _ in range(4)]
         rules = [dict(lhs=0, nodes=[], edges=[(1, [])], ext=[]),
@@ -285,7 +356,7 @@ def forced_recursive_spec(rng, kind):
 
 NT0 = dict(term=False, type=[])
 def forced_finding_specs():
-    """minimal inputs of the three known defect classes (kept in every run so that a repair is noticed)"""
+    """minimal inputs of the defect classes found by this check and since repaired in /repo (b84d904, 839ae95, e1d8ad4, fc474fc); kept in every run as regression cases"""
     F = Fraction
     dead = dict(nlabels=[2], elabels=[NT0, NT0, dict(term=True, type=[0])], start=0,
                 rules=[dict(lhs=0, nodes=[0], edges=[(2, [0])], ext=[]), dict(lhs=0, nodes=[0], edges=[(2, [0]), (1, [])], ext=[])],
@@ -303,7 +374,7 @@ def forced_finding_specs():
 
 def gen_spec(rng, i, recursive):
     if recursive and i % 3 == 1:
-        kind = (i // 3) % 3
+        kind = (i // 3) % 4
         spec = forced_recursive_spec(rng, kind)
         scale = Fraction(1, 8) if kind == 2 else rng.choice([Fraction(1, 4), Fraction(1, 8)])
         if shared_factor(spec): spec["features"] = sorted(set(spec["features"]) | {"shared_factor"})
@@ -379,6 +450,8 @@ def run(tier, seed):
             if srn == "log" and keep_zero: continue
             sr = SR(srn, "float64", scale)
             method = METHODS[(i + ci) % 3] if i != -2 else "fixed-point"
+            if any(f in spec["features"] for f in ("forced_mutual_recursion", "forced_nonlinear_matrix_recursion", "forced_dead_rule_first")):
+                method = METHODS[(i // 3 + ci) % 2]      # non-linear recursion: method='linear' would only raise its ValueError
             plain = (i + ci) % 3 == 0
             cot = [Fraction(1)] * n_c if plain else [rng.choice(COT_GRID) for _ in range(n_c)]
             case = dict(spec=gen.spec_jsonable(spec), semiring=sr.name, scale=str(sr.scale), method=method, cotangent=[str(c) for c in cot], plain=plain, via="api")
@@ -396,6 +469,42 @@ def run(tier, seed):
             if status == "nograd": kinds["nograd"] += 1
             if warned: kinds["warned"] += 1; continue      # not converged: the property presupposes the computed Z
             record(spec, sr, method, cot, plain, recursive, "api", grads, dict(case, status=status, z_all_zero=all(x == 0 for x in z)), call, dead if srn == "log" else None)
+    # option j_precompute=True (J_precompute_products), Real semiring, on the rule shapes it supports
+    # (<= 2 edges per rule, no isolated node; F9 / C11 cover the rest), >= 2 components and a factor below the start symbol
+    jrng = random.Random(seed * 17 + 3); n_j = 0; tries = 0
+    n_jpre = 24 if tier == "quick" else 300
+    while n_j < n_jpre and tries < 40 * n_jpre:
+        tries += 1
+        recursive = tries % 3 == 0
+        spec = jpre_spec(jrng, recursive)
+        if not (jpre_ok_shape(spec) and lower_scc_factor(spec)): continue
+        sr = SR("real", "float64", Fraction(1, 8) if spec["recursive"] else Fraction(1))
+        method = METHODS[n_j % 3]
+        cot = None if n_j % 2 == 0 else [jrng.choice(COT_GRID) for _ in range(numel(start_shape(spec)))]
+        try:
+            cs = grad_cases(spec, sr, method, ids=["explicit", "implicit", "mixed"][n_j % 3], rng=jrng, j_precompute=True, cot=cot)
+        except (AssertionError, RuntimeError) as e:
+            if isinstance(e, AssertionError) or "is invalid for input of size" in str(e):
+                # F9 (C11's finding): J_precompute_products / compute_products cannot handle this rule shape; not judged here
+                kinds["j_precompute_f9_skipped"] = kinds.get("j_precompute_f9_skipped", 0) + 1
+                continue
+            violations.append(Violation("gradient computation with j_precompute=True raised %r" % (e,),
+                                        case=dict(spec=gen.spec_jsonable(spec), semiring="real", scale=str(sr.scale), method=method, j_precompute=True,
+                                                  cotangent=[str(c) for c in (cot or [])], plain=cot is None, via="api"),
+                                        call="sum_product(fgg, method=%r, j_precompute=True).to_dense().backward()" % method, corr="corr:backward(j_precompute)"))
+            n_j += 1; continue
+        except Exception as e:
+            violations.append(Violation("gradient computation with j_precompute=True raised %r" % (e,),
+                                        case=dict(spec=gen.spec_jsonable(spec), semiring="real", scale=str(sr.scale), method=method, j_precompute=True,
+                                                  cotangent=[str(c) for c in (cot or [])], plain=cot is None, via="api"),
+                                        call="sum_product(fgg, method=%r, j_precompute=True).to_dense().backward()" % method, corr="corr:backward(j_precompute)",
+                                        oracle="no exception expected on rule shapes with <= 2 edges and no isolated node"))
+            n_j += 1; continue
+        for cf, v, m in cs:
+            kinds["j_precompute"] = kinds.get("j_precompute", 0) + 1
+            vals.append(v); meta.append((dict(m["case"], via="api-jpre"), m["call"], m["grads"], None))
+            if any(x != 0 for g in m["grads"].values() for x in g): distinct.add(json.dumps(m["case"], sort_keys=True))
+        n_j += 1
     t_impl = time.time()
     codes, nk = run_model_parallel(vals, seed, coq_sample=3 if tier == "quick" else 12)
     # the command-line runs were working in the background all along; judge their outputs now
@@ -410,11 +519,6 @@ def run(tier, seed):
                                         oracle="the command-line tool prints the gradient"))
             continue
         if status == "valueerror": kinds["valueerror"] += 1; continue
-        if status in BIN_FINDINGS:
-            what, fk = BIN_FINDINGS[status]
-            violations.append(Violation(what, case=case, call=call, observed=err[-400:], corr="corr:bin/sum_product.py",
-                                        oracle="the command-line tool prints the gradient / expected counts", finding_key=fk))
-            continue
         record(spec, sr, method, cot, plain, recursive, "bin", grads, case, call, None)
         if gexp is not None:
             record(spec, sr, method, cot, plain, recursive, "bin", gexp, dict(case, via="bin-e"), call + " (expected counts E * f / w)", None)
@@ -432,12 +536,9 @@ def run(tier, seed):
             k = "%s/%s/%s" % (case["semiring"], "recursive" if case["spec"]["recursive"] else "nonrecursive", case["via"])
             conclusive_by[k] = conclusive_by.get(k, 0) + 1
         if c in (0, 30, 31): continue
-        fk = "c03_log_dead_rule_nan" if (c == 1 and case["semiring"] == "log" and dead) else None
-        if c == 1 and case["semiring"] == "real" and case["method"] == "fixed-point" and case.get("status") == "nograd" and case.get("z_all_zero"):
-            fk = "c03_fixed_point_empty_solution"
-        violations.append(Violation(WHAT.get(c, "framework inconsistency (code %d)" % c) + (" [Log semiring, a rule with sum-product zero at some cell]" if fk == "c03_log_dead_rule_nan" else " [fixed-point returned no value (constant zero without gradient)]" if fk else ""),
+        violations.append(Violation(WHAT.get(c, "framework inconsistency (code %d)" % c),
                                     case=dict(case, dead_rules=dead), observed=grads, oracle=ORACLE if c == 1 else None,
-                                    corr="C03 / corr:backward", failing_input_found=c in (1, 4), call=call, finding_key=fk))
+                                    corr="C03 / corr:backward", failing_input_found=c in (1, 4), call=call))
     s0 = meta[0] if meta else None
     cov = dict(evaluations=len(vals), distinct_nontrivial=len(distinct),
                rule="random FGG specs (<= 3 nonterminals, domains <= 2; non-recursive, and linearly / non-linearly recursive damped by 1/4 or 1/8; most nonterminals given a base rule) with strictly positive dyadic weights (every 5th spec keeps zero weights, Real only), every 4th with a factor used in no rule; x {Real, Log} x method rotating over fixed-point/newton/linear (tol 1e-10, kmax 400) x cotangent (plain sum | random signed dyadic tensor); every entry of every factor's weights.grad (absent = 0) judged in Coq against the dual-number derivative; a few Real cases additionally through bin/sum_product.py (-G, -w/-g/-e, -o); distinct_nontrivial = distinct (spec, semiring, method, cotangent, route) with some non-zero gradient entry",
@@ -448,12 +549,11 @@ def run(tier, seed):
     return cov, violations
 
 OPEN_ITEMS = [
-    "proved (Props/C03.v, 32 closed theorems, generic in the semiring): dual numbers are a commutative / ordered / star semiring; Leibniz rule; C03_dual_is_derivative (projection + linearised recurrence); C03_J_is_formal_derivative (+ partial environments, Jx / J_inputs); C03_scc_vjp_onestep; C03_nonrecursive_gradient (reverse accumulation = dual-number derivative); C03_tree_derivative, C03_expected_count_numerator; C03_encl2_sound; C03_check_oracle_sound, C03_entry_interval_sound, C03_start_bounds_sound; C03_log (J_log = diag(1/F) J diag(x) under the guard 'every rule value invertible') and C03_log_partial; C03_log_dead_rule_refuted, C03_zero_weight_derivative_witness",
+    "proved (Props/C03.v, 38 closed theorems; generic in the semiring, instances for [0, inf] with the laws discharged by Proofs/SemiringLaws.v): dual numbers are a commutative / ordered / star semiring; Leibniz rule; C03_dual_is_derivative; C03_J_is_formal_derivative (+ partial environments, Jx / J_inputs); C03_scc_vjp_onestep; C03_nonrecursive_gradient (+ _ereal); C03_tree_derivative (+ _ereal), C03_expected_count_numerator; C03_encl2_sound; C03_check_oracle_sound, C03_entry_interval_sound (+ _ereal, no premises), C03_start_bounds_sound; C03_log (J_log as it is now = diag(1/F) J diag(x), only guard: finite values), C03_log_ereal, C03_log_partial, C03_log_dead_rule_now; about the code before b84d904: C03_log_old_guarded, C03_log_old_dead_rule_refuted; C03_zero_weight_derivative_witness",
     "open (analysis, not formalised): derivative of the limit = limit of the derivatives of the Kleene iterates for recursive grammars (termwise differentiation of a power series with non-negative coefficients inside its domain of convergence); proved up to: the epsilon part of every sufficiently late dual Kleene iterate lies in the certified interval",
-    "open: the code-shaped J_log model is not part of the check function (Log cases are judged by the dual-number oracle w * dZ/dw / Z only); the fixed_point loop's 'absent key' level (finding c03_fixed_point_empty_solution) is below the Coq model's observation level",
+    "open (tier B): the Log analogue of C03_nonrecursive_gradient (reverse accumulation with J_log = d log Z / d log w) is checked per case (verdict 20: backward_nonrec_log vs the dual-number oracle, exact rational equality) but not proved; log_softmax's inf branch is not modelled (finite values)",
     "open (tier B): linearly recursive grammars -- derivative of the rational least solution equals the implicit-function result of backward; the backward pass of iteratively solved components (multi_solve on the transposed system) is not modelled, it is judged by the enclosure oracle",
-    "open: instances for ereal_ops wait for the sr_ring / sr_ordered law proofs of C08 (the theorems keep the law premises explicit)",
-    "open: J_precompute_products (option j_precompute=True) is C11's business (finding F9) and is not exercised here",
+    "open: J_precompute_products is not modelled; with j_precompute=True the gradients are judged by the same oracle on grammars of three components with one- and two-edge rules; runs on which it raises AssertionError / 'shape ... is invalid' (F9, C11) are skipped and counted",
 ]
 
 def replay(path):
@@ -464,10 +564,10 @@ def replay(path):
     if c.get("via", "api").startswith("bin"):
         status, grads, gexp, err = run_bin(spec, c["method"], None if c["plain"] else cot, "ge" if c["via"] in ("bin-ge", "bin-e") else "G", scale=sr.scale, factor=c.get("factor"))
         print("status", status, err[-300:])
-        if status != "ok": return 1 if status in BIN_FINDINGS else 0
+        if status != "ok": return 0
         if c["via"] == "bin-e": grads = gexp
     else:
-        status, warned, grads, z = run_impl(spec, sr, c["method"], cot, plain=c["plain"])
+        status, warned, grads, z = run_impl(spec, sr, c["method"], cot, plain=c["plain"], j_precompute=c.get("j_precompute", False))
         print("status", status, "warned", warned, "z", z)
     code = run_ocaml(CF, [wire_case(spec, sr, cot, grads)])[0]
     print("gradients", grads, "verdict code", code)
@@ -475,7 +575,7 @@ def replay(path):
 
 MANIFEST = dict(
     level="proof",
-    text="Coq: the dual numbers over a commutative (ordered) semiring are a commutative (ordered) semiring; running the sum-product definitions over them yields the ordinary value in the first component and the formal derivative in the epsilon component (Leibniz rule for rule values, recurrence eps Z_{k+1} = J(Z_k) eps Z_k + dF/dw, sum over derivation trees and over the occurrences of the weight entry); the code's J (leave one edge out) is that Jacobian, the one-step backward pass is its vector-Jacobian product and reverse accumulation over a non-recursive grammar's components equals the dual-number derivative; J_log = diag(1/F) J diag(x). Correspondence: every entry of every factor's weights.grad after sum_product(...).backward() (Real and Log, three methods, random cotangents, also via bin/sum_product.py) is judged inside Coq against the dual-number derivative (exact for non-recursive grammars, certified enclosure for recursive ones).",
+    text="Coq: the dual numbers over a commutative (ordered) semiring are a commutative (ordered) semiring; running the sum-product definitions over them yields the ordinary value in the first component and the formal derivative in the epsilon component (Leibniz rule for rule values, recurrence eps Z_{k+1} = J(Z_k) eps Z_k + dF/dw, sum over derivation trees and over the occurrences of the weight entry); the code's J (leave one edge out) is that Jacobian, the one-step backward pass is its vector-Jacobian product and reverse accumulation over a non-recursive grammar's components equals the dual-number derivative; J_log (nan_to_num per contribution) = diag(1/F) J diag(x) on finite values; instances for [0, inf] with the semiring laws proved. Correspondence: every entry of every factor's weights.grad after sum_product(...).backward() (Real and Log, three methods, random cotangents, also via bin/sum_product.py and with j_precompute=True) is judged inside Coq against the dual-number derivative (exact for non-recursive grammars, certified enclosure for recursive ones).",
     note="Trusted: Coq kernel, extraction cross-checked by vm_compute, harness; for recursive grammars the interchange of limit and derivative (analysis) is assumed; grammars without a tight certified enclosure are discarded (counted).",
     technique="Coq proof (dual numbers / Leibniz / reverse = forward accumulation) + certified-enclosure oracle on implementation gradients",
     design_ref="DESIGN.md section 6, C03")
